@@ -1,11 +1,13 @@
-"""Which units decide which property."""
+"""Which units decide which property: one JSON file per claimed property under /verif/props/."""
+import json
+import os
+import glob
 
+VERIF = os.path.dirname(os.path.dirname(os.path.abspath(__file__)))
+
+PROPS = {}
 UNIT_OPTS = {}
-
-PROPS = {
-    "C01": dict(
-        verus=["curve2_stations"],
-        assumptions=[],
-        not_claimed=[],
-    ),
-}
+for p in sorted(glob.glob(os.path.join(VERIF, "props", "C*.json"))):
+    d = json.load(open(p))
+    PROPS[os.path.basename(p)[:-5]] = d
+    UNIT_OPTS.update(d.get("unit_opts", {}))
